@@ -28,6 +28,9 @@ def eval_doc(args):
         import lxml.etree as LE
         sources['lxml-tree'] = lambda: LE.parse(p); sources['lxml-element'] = lambda: LE.parse(p).getroot()
     except ImportError: pass
+    if 'xsi:type="q:' in doc:
+        # prefix-dependent values: a plain ElementTree tree does not keep the declarations, so the value cannot be resolved from it at all (not a verdict of the library)
+        sources.pop('etree'); sources.pop('element')
     base = None
     for sname, mk in sources.items():
         def use(f):
@@ -143,6 +146,10 @@ def run(tier, seed, open_findings):
             d = docgen.gen(rng, rng.randrange(1, 4)); d = docgen.faulty(rng, d, i % 3)
             if i % 4 == 1:       # comments and a processing instruction inside simple content: not data, whatever the parser keeps of them
                 d = d.replace('<t:qty>', '<t:qty><!-- c -->', 1).replace('</t:name>', '<?pi x?></t:name>', 1).replace('</t:leaf>', '<!-- c --></t:leaf>', 1)
+            if i % 5 == 2:       # the same prefix declared on two adjacent siblings, each using it in a prefix-dependent value (xsi:type): a source kind that rebuilds the declarations must find both
+                X = 'xmlns:q="http://www.w3.org/2001/XMLSchema"'
+                d = d.replace('<t:r xmlns:t="urn:t"', '<t:r xmlns:t="urn:t" xmlns:xsi="http://www.w3.org/2001/XMLSchema-instance"', 1)
+                d = d.replace('<t:name>', f'<t:name {X} xsi:type="q:token">', 1).replace('<t:qty>', f'<t:qty {X} xsi:type="q:positiveInteger">', 1)
             docs.append(d)
         # every ordered pair of faults on one fixed document: two faults meeting in one element (a content-model error and a value error of a child)
         # is what separates 'strict raises the first error that lax collects' from 'strict raises some error'
